@@ -384,6 +384,14 @@ fn hilbert_check(rng: &mut Rng) -> String {
             return Err(format!("centre tap {}", taps[mid]));
         }
         let scale = taps.iter().fold(0.0f32, |a, b| a.max(b.abs())) as f64;
+        // unit gain at a quarter of the sample rate: |H(pi/2)| = 2 * |sum over odd i of taps[mid+i] * sin(i pi/2)| = 1
+        let mut alt = 0.0f64;
+        for i in (1..=mid).step_by(2) {
+            alt += taps[mid + i] as f64 * if (i / 2) % 2 == 0 { 1.0 } else { -1.0 };
+        }
+        if !close(2.0 * alt.abs(), 1.0, 1e-4) {
+            return Err(format!("gain at fs/4 is {} (must be 1)", 2.0 * alt.abs()));
+        }
         for i in 1..=mid {
             if !close(taps[mid + i] as f64, -(taps[mid - i] as f64), 3e-5 * scale) {
                 return Err(format!("taps[mid+{i}] = {} but taps[mid-{i}] = {}", taps[mid + i], taps[mid - i]));
